@@ -1,6 +1,5 @@
 import Cherab.Props.C06Table
 open Cherab.Props.C06Table
-#print axioms of
 #print axioms get_matches_update
 #print axioms templates_shaped
 #print axioms templates_disjoint
